@@ -24,7 +24,7 @@ PROP = {
     "runs": [{
         "component": "mcast",
         "quick": {"gen": [(2500, 30)], "enum": [(2,)]},
-        "thorough": {"gen": [(40000, 45)], "enum": [(3,)]},
+        "thorough": {"gen": [(30000, 45)], "enum": [(3,)]},
         "timeout": 1500,
     }],
     "rule": "scripts = 2-8 real sockets on one IO context: sonic.NewPacketConn (bind forms 127.0.0.1:0, :0, empty), "
